@@ -121,7 +121,24 @@ NI_ALPHABET = [
     ("type-introspection-bytes", b'{ __type(name: "Query") { name } }', {}),
     ("syntax", "{ hello ", {}),
 ]
-FAMILIES = {"auth": (AUTH_SDL, AUTH_ALPHABET), "ni": (NI_SDL, NI_ALPHABET)}
+# abstract types: validating or executing one document must not change what the schema's interfaces / unions admit for later ones
+ABS_SDL = """
+interface Node { id: ID! }
+type Cat implements Node { id: ID! lives: Int }
+type Dog implements Node { id: ID! tricks: Int }
+union Pet = Cat | Dog
+type Query { cat: Cat nodes: [Node] pet: Pet hello: String }
+"""
+ABS_ALPHABET = [
+    ("node-spread-in-cat", "{ cat { ... on Node { id } } }", {}),
+    ("all-nodes", "{ nodes { id } }", {}),
+    ("dog-fragment", "{ nodes { ... on Dog { tricks } } }", {}),
+    ("pet-in-node-fragment", "{ nodes { ...PF } } fragment PF on Pet { ... on Dog { id } }", {}),
+    ("impossible-spread", "{ cat { ... on Dog { id } } }", {}),
+    ("pet-typename", "{ pet { __typename ... on Node { id } } }", {}),
+    ("node-spread-in-cat-bytes", b"{ cat { ... on Node { id } } }", {}),
+]
+FAMILIES = {"auth": (AUTH_SDL, AUTH_ALPHABET), "ni": (NI_SDL, NI_ALPHABET), "abs": (ABS_SDL, ABS_ALPHABET)}
 
 
 class AuthDirective:
@@ -149,6 +166,19 @@ def make_auth_engine(config, family="auth"):
     async def hello(parent, args, ctx, info):
         return "world"
 
+    if family == "abs":
+        @Resolver("Query.cat", schema_name=name)
+        async def cat(parent, args, ctx, info):
+            return {"_typename": "Cat", "id": "c1", "lives": 9}
+
+        @Resolver("Query.nodes", schema_name=name)
+        async def nodes(parent, args, ctx, info):
+            return [{"_typename": "Cat", "id": "c1", "lives": 9}, {"_typename": "Dog", "id": "d1", "tricks": 2}]
+
+        @Resolver("Query.pet", schema_name=name)
+        async def pet(parent, args, ctx, info):
+            return {"_typename": "Dog", "id": "d1", "tricks": 2}
+
     kw = {"query_cache_decorator": None} if config == "disabled" else {"query_cache_decorator": lru_cache(maxsize=1)} if config == "lru1" else {}
     return harness.run(create_engine(FAMILIES[family][0], schema_name=name, error_coercer=prefixing_coercer, **kw)), name
 
@@ -171,6 +201,8 @@ def run_auth(tier, first, family="auth"):
         drop(name)
     if family == "ni" and ("disabled" not in ref["type-introspection"] or "world" not in ref["valid"]):
         out["machinery"].append("the non-introspectable engine does not behave as intended: %r" % (ref,))
+    if family == "abs" and ("d1" not in ref["all-nodes"] or '"data": null' not in ref["impossible-spread"] or '"tricks": 2' not in ref["dog-fragment"]):
+        out["machinery"].append("the abstract-types engine does not behave as intended: %r" % (ref,))
     if family == "auth" and ("world" not in ref["valid-token"] or "Unauthorized" not in ref["valid-no-token"]):
         out["machinery"].append("the auth engine does not behave as intended: %r" % (ref,))
     depth = 3 if tier == "quick" else 4
@@ -186,7 +218,7 @@ def run_auth(tier, first, family="auth"):
                 if got != ref[letter[0]]:
                     labels = [alphabet[i][0] for i in hist[:pos + 1]]
                     out["violations"].append({
-                        "signature": "response-changed-by-history|%s|%s" % ("schema-hook-refusals" if family == "auth" else "non-introspectable-schema", letter[0]),
+                        "signature": "response-changed-by-history|%s|%s" % ({"auth": "schema-hook-refusals", "ni": "non-introspectable-schema", "abs": "abstract-types"}[family], letter[0]),
                         "summary": "cache=%s history=%r (schema-level hook): response #%d is %s but a fresh engine answers %s" % (
                             config, labels, pos, got[:500], ref[letter[0]][:500]),
                         "replay": {"auth_history": list(hist[:pos + 1]), "config": config}})
@@ -392,13 +424,13 @@ def reference():
 
 def shards(tier, seed):
     n = len(ALPHABET)
-    return [(a, b, tier) for a in range(n) for b in range(n)] + [("shared", tier)] + [("variables", tier, k) for k in range(len(VARS_ALPHABET))] + [("auth", tier, k) for k in range(len(AUTH_ALPHABET))] + [("ni", tier, k) for k in range(len(NI_ALPHABET))] + [("mutating", tier, k) for k in range(len(MUT_ALPHABET))]
+    return [(a, b, tier) for a in range(n) for b in range(n)] + [("shared", tier)] + [("variables", tier, k) for k in range(len(VARS_ALPHABET))] + [("auth", tier, k) for k in range(len(AUTH_ALPHABET))] + [("ni", tier, k) for k in range(len(NI_ALPHABET))] + [("abs", tier, k) for k in range(len(ABS_ALPHABET))] + [("mutating", tier, k) for k in range(len(MUT_ALPHABET))]
 
 
 def run_shard(item):
     if item[0] == "shared":
         return run_shared(item[1])
-    if item[0] in ("auth", "ni"):
+    if item[0] in ("auth", "ni", "abs"):
         return run_auth(item[1], item[2], item[0])
     if item[0] == "variables":
         return run_shared_variables(item[1], item[2])
